@@ -18,7 +18,8 @@ open ArgoVerif ArgoVerif.Model.Rank
 /-! ## Part 1 — ranks -/
 
 /-- states reachable from `ABT_init` by any sequence of API calls (any interleaving of
-callers: each call is atomic under `xstream_list_lock`) -/
+callers: each call is atomic under `xstream_list_lock` — a theorem, see Part 4,
+`Conc.conc_refines_atomic`) -/
 def Reach (s : St) : Prop := ∃ ops outs, runOps init ops = some (s, outs)
 
 /-- what a call may report, given the map before the call -/
@@ -899,14 +900,12 @@ different execution streams) of create / create_with_rank / set_rank / free / ge
 granularity spinlock test_and_set / scan / list update / release / return -/
 def Reach (s : CSt) : Prop := ∃ tr, machine.run Model.RankConc.init tr = some s
 
-theorem reach_inv {s : CSt} (h : Reach s) : Inv s := inv_reachable s h
-
 /-- **the list lock is a lock**: `xstream_list_lock` is set exactly while one actor is between
 its successful test_and_set and its release, and two actors are never there together. -/
 theorem conc_mutual_exclusion (s : CSt) (h : Reach s) :
     (∀ a, s.lock = some a ↔ inCrit (s.pc a) = true) ∧
     (∀ a b, inCrit (s.pc a) = true → inCrit (s.pc b) = true → a = b) := by
-  have hi := reach_inv h
+  have hi := inv_reachable _ h
   refine ⟨hi.own, fun a b ha hb => ?_⟩
   have h1 := (hi.own a).mpr ha
   have h2 := (hi.own b).mpr hb
@@ -922,7 +921,7 @@ each ran alone, in the order in which they performed their update under `xstream
 theorem conc_refines_atomic (s : CSt) (h : Reach s) :
     runOps Model.Rank.init (s.hist.map Prod.fst) = some (s.g, s.hist.map Prod.snd) ∧
     ArgoVerif.Props.C17.Reach s.g :=
-  ⟨(reach_inv h).hist, ⟨_, _, (reach_inv h).hist⟩⟩
+  ⟨(inv_reachable _ h).hist, ⟨_, _, (inv_reachable _ h).hist⟩⟩
 
 /-- **forward simulation, step by step**: every step of every actor either leaves the shared list
 and the history alone, or is exactly ONE atomic `Model.Rank` call — the acting actor's own call,
@@ -934,7 +933,7 @@ theorem conc_step_simulates (s s' : CSt) (e : Ev) (h : Reach s) (hs : Model.Rank
     ∃ a o, preLin (s.pc a) = true ∧ postLin (s'.pc a) = true ∧
       Model.Rank.step s.g (s.op a) = some (s'.g, o) ∧ s'.hist = s.hist ++ [(s.op a, o)] ∧ s'.res a = o ∧
       (s.lock = some a ∨ (lockFree s.g (s.op a) = true ∧ s'.g = s.g)) := by
-  cases (inv_step s s' e (reach_inv h) hs).2 with
+  cases (inv_step s s' e (inv_reachable _ h) hs).2 with
   | stutter hg hh => exact Or.inl ⟨hg, hh⟩
   | lin a o h1 h2 h3 h4 h5 h6 => exact Or.inr ⟨a, o, h1, h2, h3, h4, h5, h6⟩
 
@@ -942,7 +941,7 @@ theorem conc_step_simulates (s s' : CSt) (e : Ev) (h : Reach s) (hs : Model.Rank
 at its linearisation step. -/
 theorem conc_ret_is_linearized (s s' : CSt) (a : Actor) (o : Out) (h : Reach s)
     (hs : Model.RankConc.step s (.ret a o) = some s') : (s.op a, o) ∈ s.hist := by
-  have hi := reach_inv h
+  have hi := inv_reachable _ h
   simp only [Model.RankConc.step, stepRet] at hs
   split at hs
   · rename_i hc
@@ -1039,7 +1038,7 @@ theorem conc_scan_valid_at_update (s : CSt) (a : Actor) (h : Reach s) (hpc : s.p
     (∀ p, s.op a = .create p → 0 ≤ s.loc a ∧ s.loc a ∉ ranks s.g ∧ p ∉ live s.g ∧
         ∀ k, 0 ≤ k → k < s.loc a → k ∈ ranks s.g) ∧
     (∀ p r, s.op a = .setRank p r → r ∉ ranks s.g ∧ p ∈ live s.g) := by
-  have hi := reach_inv h
+  have hi := inv_reachable _ h
   have hc := hi.chk a hpc
   have hp := hi.pre a (by rw [hpc]; rfl)
   have hn := hi.need a (by rw [hpc]; rfl)
@@ -1068,7 +1067,7 @@ after a successful scan passes `ABTI_ASSERT(p_xstream->rank != rank)` and the he
 theorem conc_critical_section_progress (s : CSt) (a : Actor) (h : Reach s) (hc : inCrit (s.pc a) = true) :
     ∃ e, (Model.RankConc.step s e).isSome = true ∧
       (e = .check a ∨ e = .insert a ∨ e = .move a ∨ e = .remove a ∨ e = .clear a) := by
-  have hi := reach_inv h
+  have hi := inv_reachable _ h
   have hlk := (hi.own a).mpr hc
   cases hpc : s.pc a with
   | idle => rw [hpc] at hc; simp [inCrit] at hc
